@@ -92,9 +92,76 @@ pub fn observe(files: &[Value], extra_keys: &[String]) -> Value {
     }
 }
 
+/// C09 on converters built from layers: every ordered pair of the PREDICTED units of one physical quantity, addressed by
+/// each unit's first key, converted both through Converter::convert and through a quantity; the amount must be the one
+/// implied by the predicted ratios (the specification's unit table, not the built converter's)
+pub fn conversions(files: &[Value], pred_units: &[Value]) -> Value {
+    use cooklang::convert::{ConvertTo, ConvertUnit, ConvertValue};
+    use cooklang::quantity::{Quantity, Value as QValue};
+    let parsed: Result<Vec<UnitsFile>, _> = files.iter().map(|f| serde_json::from_value::<UnitsFile>(f.clone())).collect();
+    let Ok(parsed) = parsed else { return json!({"st": "undeserialisable"}) };
+    let built = guarded(|| {
+        let mut b = Converter::builder();
+        for f in parsed {
+            b.add_units_file(f)?;
+        }
+        b.finish()
+    });
+    let Ok(Ok(conv)) = built else { return json!({"st": "notbuilt"}) };
+    let key = |u: &Value| -> Option<String> {
+        ["symbols", "names", "aliases"].iter().find_map(|k| u[*k].as_array().and_then(|a| a.first()).and_then(|x| x.as_str()).map(|x| x.to_string()))
+    };
+    let mut pairs = 0;
+    let mut bad = 0;
+    let mut first = String::new();
+    for a in pred_units {
+        for b in pred_units {
+            let (Some(ka), Some(kb)) = (key(a), key(b)) else { continue };
+            if a["q"] != b["q"] {
+                continue;
+            }
+            let (ra, rb) = (a["ratio"].as_f64().unwrap_or(1.0), b["ratio"].as_f64().unwrap_or(1.0));
+            for v in [3.0f64, 0.25] {
+                pairs += 1;
+                let want = v * ra / rb;
+                let close = |x: f64| (x - want).abs() <= 1e-9 * want.abs().max(1e-12);
+                let direct = guarded(|| conv.convert(ConvertValue::Number(v), ConvertUnit::Key(&ka), ConvertTo::Unit(ConvertUnit::Key(&kb))));
+                let ok1 = matches!(direct, Ok(Ok((ConvertValue::Number(x), _))) if close(x));
+                let mut q = Quantity::new(QValue::Number(v.into()), Some(ka.clone()));
+                let ok2 = matches!(guarded(|| q.convert(kb.as_str(), &conv).map(|_| match q.value() { QValue::Number(n) => n.value(), _ => f64::NAN })),
+                                   Ok(Ok(x)) if (x - want).abs() <= 1e-6 * want.abs().max(1e-12));
+                if !(ok1 && ok2) {
+                    bad += 1;
+                    if first.is_empty() {
+                        first = format!("{v} {ka} -> {kb}: want {want}, Converter::convert {:?}, quantity {}", direct.ok().map(|r| r.ok().map(|(v, _)| format!("{v:?}"))), q);
+                    }
+                }
+            }
+        }
+    }
+    json!({"st": "built", "pairs": pairs, "bad": bad, "first": first})
+}
+
 /// `builder --in f --out f`
 pub fn main(args: &[String]) {
     let recs = read_ndjson(req_arg(args, "--in"));
+    if args.iter().any(|a| a == "--conversions") {
+        let out: Vec<Value> = recs
+            .par_iter()
+            .filter(|r| r["pred"]["outcome"] == "built")
+            .map(|r| {
+                let files = r["files"].as_array().cloned().unwrap_or_default();
+                let units = r["pred"]["units"].as_array().cloned().unwrap_or_default();
+                let mut o = conversions(&files, &units);
+                o["kind_rec"] = json!("layered");
+                o["files"] = r["files"].clone();
+                o
+            })
+            .collect();
+        write_ndjson(req_arg(args, "--out"), &out);
+        println!("builder: {} layered converters", out.len());
+        return;
+    }
     let mut out: Vec<Value> = recs
         .par_iter()
         .map(|r| {
